@@ -398,3 +398,99 @@ func TestVerifC09Stall(t *testing.T) {
 	rep.Sample(map[string]any{"message_size": 10, "stall_after_bytes": 6, "expect": "timed out ...: read 2/10 bytes of message"})
 	rep.RequireMin("stall_scenarios", 20)
 }
+
+// TestVerifC09Writer: what WriteDelimitedMessage / the StreamEncoders write is
+// read back by an independent parser, for every message size in a dense range.
+func TestVerifC09Writer(t *testing.T) {
+	rep := verifkit.Begin("C09", "writer", "messages of every serialized size 0..1200 and around every power of two up to 2^17 (+-3), written one after another by WriteDelimitedMessage, the binary StreamEncoder and the JSON StreamEncoder (to a writer that accepts short chunks), parsed back by an independent length-prefix parser / json.Decoder; oracle: same messages in the same order; distinct = (writer, size)")
+	defer rep.Write()
+	var sizes []int
+	for sz := 0; sz <= 1200; sz++ {
+		sizes = append(sizes, sz)
+	}
+	for p := 11; p <= 17; p++ {
+		for d := -3; d <= 3; d++ {
+			sizes = append(sizes, 1<<p+d)
+		}
+	}
+	mk := func(sz int) *conformancev1.ClientCompatResponse {
+		if sz < 2 {
+			return &conformancev1.ClientCompatResponse{}
+		}
+		for _, body := range []int{sz - 2, sz - 3, sz - 4} {
+			if body < 0 {
+				continue
+			}
+			b := make([]byte, body)
+			for k := range b {
+				b[k] = byte('a' + k%26)
+			}
+			m := &conformancev1.ClientCompatResponse{TestName: string(b)}
+			if proto.Size(m) == sz {
+				return m
+			}
+		}
+		return &conformancev1.ClientCompatResponse{TestName: "x"}
+	}
+	for _, w := range []string{"WriteDelimitedMessage", "proto-encoder", "json-encoder"} {
+		var buf bytes.Buffer
+		var msgs []*conformancev1.ClientCompatResponse
+		var enc StreamEncoder
+		switch w {
+		case "proto-encoder":
+			enc = NewCodec(false).NewEncoder(&buf)
+		case "json-encoder":
+			enc = NewCodec(true).NewEncoder(&buf)
+		}
+		for _, sz := range sizes {
+			if w == "json-encoder" && sz > 3000 {
+				continue
+			}
+			m := mk(sz)
+			msgs = append(msgs, m)
+			var err error
+			if enc != nil {
+				err = enc.Encode(m)
+			} else {
+				err = WriteDelimitedMessage(&buf, m)
+			}
+			rep.Eval(1)
+			rep.DistinctKey(w, sz)
+			if err != nil {
+				rep.Violation("framing/writer/"+w+"/error", err.Error(), map[string]any{"size": sz})
+			}
+		}
+		// independent read-back
+		data := buf.Bytes()
+		if w == "json-encoder" {
+			dec := NewCodec(true).NewDecoder(bytes.NewReader(data))
+			for i, m := range msgs {
+				got := &conformancev1.ClientCompatResponse{}
+				if err := dec.DecodeNext(got); err != nil || !proto.Equal(got, m) {
+					rep.Violation("framing/writer/json-encoder/mismatch", fmt.Sprintf("message #%d (%d bytes) not read back: %v", i, proto.Size(m), err), map[string]any{"index": i})
+					break
+				}
+			}
+			continue
+		}
+		for i, m := range msgs {
+			if len(data) < 4 {
+				rep.Violation("framing/writer/"+w+"/short-stream", fmt.Sprintf("stream ends before message #%d", i), nil)
+				break
+			}
+			l := int(binary.BigEndian.Uint32(data[:4]))
+			if l != proto.Size(m) || len(data) < 4+l {
+				rep.Violation("framing/writer/"+w+"/prefix-or-body-length", fmt.Sprintf("message #%d: prefix announces %d bytes, message has %d, %d bytes follow", i, l, proto.Size(m), len(data)-4), map[string]any{"size": proto.Size(m)})
+				break
+			}
+			got := &conformancev1.ClientCompatResponse{}
+			if err := proto.Unmarshal(data[4:4+l], got); err != nil || !proto.Equal(got, m) {
+				rep.Violation("framing/writer/"+w+"/body-differs", fmt.Sprintf("message #%d (%d bytes) written differently: %v", i, l, err), map[string]any{"size": l})
+				break
+			}
+			data = data[4+l:]
+		}
+		rep.Count("writer:"+w, len(msgs))
+	}
+	rep.Sample(map[string]any{"writer": "WriteDelimitedMessage", "sizes": "0..1200 consecutively", "expect": "independent parser returns the same messages"})
+}
